@@ -103,7 +103,7 @@ func checkC14(ci any, info *CaseInfo) string {
 	var u *gotype.Unfolder
 	o := guard(func() error {
 		var err error
-		u, err = gotype.NewUnfolder(target.Interface())
+		u, err = newUnfolder(target.Interface())
 		return err
 	})
 	if o.Panicked() {
